@@ -13,3 +13,23 @@ package ply
 //@   props C01
 //@ func Write frameonly
 //@   props C01
+
+// ---- C14: truncated input. Thin units: every result that signals short input (Scanner.Scan, io.ReadFull,
+// binary.Read) must be consumed (mustuse.*); small decoders: no crash on a short record, for ANY token slice.
+//@ func MeshReader.Read frameonly
+//@   props C14
+//@ func readAsciiFaceElement frameonly
+//@   props C14
+//@ func readBinaryFaceElement frameonly
+//@   props C14
+//@ func ReadHeader frameonly
+//@   props C14
+
+// a list record "n v1 ... vn": never indexes past the tokens that are there; consumes n+1 of them
+//@ func listAsciiPropertyReader.Read
+//@   props C14
+//@   modifies lpr, lpr.buf
+//@   requires lpr != nil
+//@   requires scanner_token_limit: len(line) < 2147483647
+//@   returns offset, err
+//@   ensures consumed_tokens_exist: err == nil ==> 1 <= offset && offset <= len(line)
